@@ -1,0 +1,103 @@
+//go:build verif
+
+package cache
+
+// Contracts for govc (contract-based deductive verification). Comment-only: this file
+// contributes no declarations and is compiled only with -tags verif.
+
+// ---- LRU cache (C20) -----------------------------------------------------------------
+// Representation invariant: the index (items) and the recency list (evictList) describe the
+// same set of entries, every list element is an *Entry filed under its own key, and the
+// entry count respects the configured capacity.
+
+//@ spec func ent(e *list.Element) *Entry = e.Value.(*Entry)
+//@ spec func isEnt(e *list.Element) bool = allocated(e) && typeis(e.Value, *Entry) && ent(e) != nil && allocated(ent(e))
+//@ spec func wfBase(c *LRUCache) bool = c.items != nil && c.evictList != nil && lwf(c.evictList) && len(c.items) == llen(c.evictList) && forall(i, 0, llen(c.evictList), isEnt(lat(c.evictList, i)) && has(c.items, ent(lat(c.evictList, i)).Key) && c.items[ent(lat(c.evictList, i)).Key] == lat(c.evictList, i)) && forall(k, string, has(c.items, k) ==> lmember(c.evictList, c.items[k]) && ent(c.items[k]).Key == k)
+//@ spec func wfCap(c *LRUCache) bool = c.capacity > 0 ==> llen(c.evictList) <= c.capacity
+//@ spec func wf(c *LRUCache) bool = wfBase(c) && wfCap(c)
+//@ spec func lk(c *LRUCache) *sync.RWMutex = addr(c.mu)
+
+//@ monitor LRUCache.mu guards items, evictList, currentSize invariant wf(self)
+
+//@ func (*Entry).IsExpired
+//@   requires e != nil
+//@   modifies nothing
+
+//@ func (*LRUCache).removeElement
+//@   requires c != nil && elem != nil && heldw(lk(c)) && wfBase(c) && lmember(c.evictList, elem)
+//@   dyncall modifies nothing
+//@   modifies mapof(c.items), c.currentSize, c.stats, llen(c.evictList), lat(c.evictList), lidx(c.evictList)
+//@   ensures wfBase(c) && llen(c.evictList) == old(llen(c.evictList)) - 1
+//@   ensures !has(c.items, old(ent(elem).Key))
+//@   ensures forall(k, string, k != old(ent(elem).Key) ==> has(c.items, k) == old(has(c.items, k)) && c.items[k] == old(c.items[k]))
+//@   ensures forall(i, 0, old(lidx(c.evictList, elem)), lat(c.evictList, i) == old(lat(c.evictList, i)))
+//@   ensures forall(i, old(lidx(c.evictList, elem)), llen(c.evictList), lat(c.evictList, i) == old(lat(c.evictList, i + 1)))
+
+//@ func (*LRUCache).evictOldest
+//@   requires c != nil && heldw(lk(c)) && wfBase(c)
+//@   dyncall modifies nothing
+//@   modifies mapof(c.items), c.currentSize, c.stats, llen(c.evictList), lat(c.evictList), lidx(c.evictList)
+//@   ensures wfBase(c)
+//@   ensures old(llen(c.evictList)) == 0 ==> llen(c.evictList) == 0
+//@   ensures old(llen(c.evictList)) > 0 ==> llen(c.evictList) == old(llen(c.evictList)) - 1
+//@   ensures old(llen(c.evictList)) > 0 ==> !has(c.items, old(ent(lat(c.evictList, llen(c.evictList) - 1)).Key))
+//@   ensures forall(k, string, old(llen(c.evictList)) == 0 || k != old(ent(lat(c.evictList, llen(c.evictList) - 1)).Key) ==> has(c.items, k) == old(has(c.items, k)) && c.items[k] == old(c.items[k]))
+//@   ensures forall(i, 0, llen(c.evictList), lat(c.evictList, i) == old(lat(c.evictList, i)))
+
+// Get: a hit returns the value filed under exactly this key and makes it the most recent entry.
+//@ func (*LRUCache).Get
+//@   requires c != nil
+//@   dyncall modifies nothing
+//@   ensures !result1 ==> result == nil
+//@   ensures result1 ==> has(c.items, key) && ent(c.items[key]).Key == key && result == ent(c.items[key]).Value && lat(c.evictList, 0) == c.items[key]
+//@   ensures result1 ==> atlock(has(c.items, key)) && c.items[key] == atlock(c.items[key]) && result == atlock(ent(c.items[key]).Value)
+//@   ensures !atlock(has(c.items, key)) ==> !result1
+//@   ensures forall(k, string, k != key ==> has(c.items, k) == atlock(has(c.items, k)) && c.items[k] == atlock(c.items[k]))
+
+//@ func (*LRUCache).Delete
+//@   requires c != nil
+//@   dyncall modifies nothing
+//@   ensures result == nil && !has(c.items, key)
+//@   ensures forall(k, string, k != key ==> has(c.items, k) == atlock(has(c.items, k)) && c.items[k] == atlock(c.items[k]))
+
+// Set: afterwards the key maps to the stored value at the front of the recency list (unless the
+// value can never fit); other keys keep their entries or are evicted, least recently used first
+// (the survivors are a prefix of the old recency order); the eviction loop terminates.
+//@ func (*LRUCache).Set
+//@   requires c != nil
+//@   dyncall modifies nothing
+//@   ensures result == nil
+//@   check c.capacity > 0 && !(c.maxSize > 0 && size > c.maxSize) ==> has(c.items, key) && ent(c.items[key]).Key == key && ent(c.items[key]).Value == value && lat(c.evictList, 0) == c.items[key]
+//@   check !(c.capacity > 0 && !(c.maxSize > 0 && size > c.maxSize)) ==> !has(c.items, key)
+//@   ensures forall(k, string, k != key && has(c.items, k) ==> atlock(has(c.items, k)) && c.items[k] == atlock(c.items[k]))
+//@   ensures !atlock(has(c.items, key)) && has(c.items, key) ==> forall(i, 1, llen(c.evictList), lat(c.evictList, i) == atlock(lat(c.evictList, i - 1)))
+//@   loop 1 invariant heldw(lk(c)) && wfBase(c) && !has(c.items, key) && c.capacity > 0 && entry != nil && fresh(entry)
+//@   loop 1 invariant llen(c.evictList) <= atlock(llen(c.evictList)) && forall(i, 0, llen(c.evictList), lat(c.evictList, i) == atlock(lat(c.evictList, i)))
+//@   loop 1 invariant forall(k, string, has(c.items, k) ==> atlock(has(c.items, k)) && c.items[k] == atlock(c.items[k]))
+//@   loop 1 decreases llen(c.evictList)
+
+// SetWithTags: same contract as Set.
+//@ func (*LRUCache).SetWithTags
+//@   requires c != nil
+//@   dyncall modifies nothing
+//@   ensures result == nil
+//@   check c.capacity > 0 && !(c.maxSize > 0 && size > c.maxSize) ==> has(c.items, key) && ent(c.items[key]).Key == key && ent(c.items[key]).Value == value && lat(c.evictList, 0) == c.items[key]
+//@   check !(c.capacity > 0 && !(c.maxSize > 0 && size > c.maxSize)) ==> !has(c.items, key)
+//@   ensures forall(k, string, k != key && has(c.items, k) ==> atlock(has(c.items, k)) && c.items[k] == atlock(c.items[k]))
+//@   ensures !atlock(has(c.items, key)) && has(c.items, key) ==> forall(i, 1, llen(c.evictList), lat(c.evictList, i) == atlock(lat(c.evictList, i - 1)))
+//@   loop 1 invariant heldw(lk(c)) && wfBase(c) && !has(c.items, key) && c.capacity > 0 && entry != nil && fresh(entry)
+//@   loop 1 invariant llen(c.evictList) <= atlock(llen(c.evictList)) && forall(i, 0, llen(c.evictList), lat(c.evictList, i) == atlock(lat(c.evictList, i)))
+//@   loop 1 invariant forall(k, string, has(c.items, k) ==> atlock(has(c.items, k)) && c.items[k] == atlock(c.items[k]))
+//@   loop 1 decreases llen(c.evictList)
+
+// Clear: afterwards nothing is cached.
+//@ func (*LRUCache).Clear
+//@   requires c != nil
+//@   dyncall modifies nothing
+//@   ensures result == nil && llen(c.evictList) == 0 && forall(k, string, !has(c.items, k))
+//@   loop 1 invariant heldw(lk(c)) && c.items != nil && c.evictList != nil && c.items == atlock(c.items) && c.evictList == atlock(c.evictList)
+//@   loop 1 invariant forall(k, string, visited(1, k) ==> !has(c.items, k))
+
+//@ func (*LRUCache).Stats
+//@   requires c != nil
+//@   ensures result.EntryCount == llen(c.evictList) && result.Size == c.currentSize
